@@ -22,6 +22,7 @@ PRELUDE = '''From Coq Require Import ZArith QArith Qminmax List Bool.
 From DK Require Import Num NumQ Vec.
 From DK.Gen Require Import Kernels.
 From DK.Model Require Import Leaf Fn Dev Tree Projection PyOps SetOps FnOps ProbeEnc.
+Require DK.Gen.Classes.
 Require DK.Gen.%(name)s.
 Require DKC.%(name)sNew.
 Import ListNotations.
@@ -142,8 +143,14 @@ BATTERIES['Classes'] = [
                'enc_s (@M@.SDevice_cost 3 (%s) (%s) (%s) 8 (1#2) (1#4) (%s) (%s) s vb)) [va; vb; vc; [-3; -3; 1]])') % ((c1, c2, c3, e, su) * 8))
   for (c1, c2, c3) in (('1', '1#2', '2'), ('1', '0', '0')) for e in ('1', '3#4') for su in ('1', '1#2')
 ]
+BATTERIES['Storage'] = [
+  ('SDevice.deriv', ('concat (map (fun s => enc_v (@M@.SDevice_deep_damage_at_deriv 3 (%s) (%s) (%s) 8 (1#2) (1#4) (%s) (%s) s) ++ '
+                     'enc_v (@M@.SDevice_charge_costs_deriv 3 (%s) (%s) (%s) 8 (1#2) (1#4) (%s) (%s) s) ++ enc_v (@M@.SDevice_deriv 3 (%s) (%s) (%s) 8 (1#2) (1#4) (%s) (%s) s vb)) '
+                     '[va; vb; vc; [-3; -3; 1]; [-3; 2; -3]])') % ((c1, c2, c3, e, su) * 3))
+  for (c1, c2, c3) in (('1', '1#2', '2'), ('1', '0', '0'), ('2', '1', '3')) for e in ('1', '3#4') for su in ('1', '1#2')
+]
 EXTRA = {'DeviceSet': KIDS, 'MFDeviceSet': KIDS, 'Functions': KIDS}
-NAMES = {'projection': 'Projection', 'thermal': 'Thermal', 'deviceset': 'DeviceSet', 'mfdeviceset': 'MFDeviceSet', 'functions': 'Functions', 'classes': 'Classes'}
+NAMES = {'projection': 'Projection', 'thermal': 'Thermal', 'deviceset': 'DeviceSet', 'mfdeviceset': 'MFDeviceSet', 'functions': 'Functions', 'classes': 'Classes', 'storage': 'Storage'}
 
 
 def supported(w):
